@@ -379,6 +379,7 @@ pub const TARGETS: &[Target] = &[
     Target { module: "FindUci", file: BOARD, container: Free, name: "MoveFromUciError", what: What::Enum },
     Target { module: "FindUci", file: BOARD, container: Impl("Bitboard"), name: "find_uci", what: FIND_UCI },
     Target { module: "FindUci", file: BOARD, container: Impl("Bitboard"), name: "make_uci", what: FIND_UCI },
+    Target { module: "MakeAllUci", file: BOARD, container: Impl("Bitboard"), name: "make_all_uci", what: FIND_UCI },
     // ---- `SimpleHeuristic`: material, game stage, piece-square sums, `evaluate_ongoing` (C11); the piece-square tables are opaque values
     Target { module: "Simple", file: SIMPLE, container: Free, name: "QUEEN_VALUE", what: What::Const },
     Target { module: "Simple", file: SIMPLE, container: Free, name: "ROOK_VALUE", what: What::Const },
